@@ -6,7 +6,6 @@ package numcall
 import (
 	"fmt"
 	"math/big"
-	"os"
 	"runtime/debug"
 	"strconv"
 
@@ -152,5 +151,3 @@ func ShowAll(vs []any) []string {
 	}
 	return out
 }
-
-var _ = os.DevNull
